@@ -35,7 +35,7 @@ Inductive pc :=
   (* POOL_joinJobs *)
   | JLock | JWait | JAsleep | JUnlock
   (* POOL_resize n *)
-  | RLock (n : nat) | RBcast | RUnlock
+  | RLock (n : nat) | RBcast | RBcastPush | RUnlock
   (* harness: main joins client thread c *)
   | MJoin (c : nat)
   (* POOL_free = POOL_join + destroy *)
@@ -213,7 +213,8 @@ Definition step (cfg : config) (tid w : nat) (s : state) : option state :=
             (* failure: threadCapacity = the threads that exist, threadLimit unchanged; POOL_resize still broadcasts, returns 1 *)
             Some (mkS (set_cap (cap p + m) p1) g (upd tid (set_pc RBcast th) ths ++ repeat new_worker m))
       else None
-    | RBcast => put' p g (broadcast wake_pop ths) (set_pc RUnlock th)
+    | RBcast => put' p g (broadcast wake_pop ths) (set_pc RBcastPush th)
+    | RBcastPush => put' p g (broadcast wake_push ths) (set_pc RUnlock th)
     | RUnlock => let '(th', g') := finish_op cfg tid th g in put (set_owner None p) g' th'
     (* ---------- harness: main waits for the other clients, then frees the pool ---------- *)
     | MJoin c =>
